@@ -267,6 +267,28 @@ def run_traced(job, opt=None):
         out["result"] = {"evolution": [[_enc_agent(a) for a in pop.agents] for pop in res.evolution],
                          "rates": [bits(r) for r in res.rates], "best": _enc_agent(res.best_solution)}
         out["init_pop"] = None
+        if job.get("utils"):
+            from pyvolutionary import utils as pvu
+            u = {}
+            n_gen = len(res.evolution)
+            sizes = [len(p.agents) for p in res.evolution]
+            for label, iters in job["utils"]:
+                its = None if iters is None else [i for i in iters]
+                for idx in sorted({0, 1, min(sizes) - 1, min(sizes) // 2}):
+                    if idx < 0:
+                        continue
+                    try:
+                        tr = pvu.agent_trend(res, idx, its)
+                        ps = pvu.agent_position(res, idx, its)
+                        u[f"{label}:{idx}"] = {"trend": [bits(c) for c in tr], "pos": [_enc_pos(p) for p in ps]}
+                    except Exception as e:  # noqa
+                        u[f"{label}:{idx}"] = {"err": type(e).__name__}
+            try:
+                u["best_trend"] = [bits(c) for c in pvu.best_agent_trend(res)]
+                u["best_pos"] = [_enc_pos(p) for p in pvu.best_agent_position(res)]
+            except Exception as e:  # noqa
+                u["best_trend"] = {"err": type(e).__name__}
+            out["utils"] = u
     except BaseException as e:  # noqa
         tb = traceback.extract_tb(e.__traceback__)
         frames = [f for f in tb if "/pyvolutionary/" in f.filename]
